@@ -882,6 +882,20 @@ func (a *A) finish(p *Prop, verifDir string, seed int64, start time.Time, extraI
 	for k, v := range extraInfo {
 		cov[k] = v
 	}
+	// the behaviour-preserving changes on which this property's check is known to alarm (refactors/limits): the
+	// honest list of forms the rules do not yet tell from a violation
+	var limits []string
+	if ms, _ := filepath.Glob(filepath.Join(verifDir, "refactors", "limits", "*.diff")); len(ms) > 0 {
+		for _, m := range ms {
+			limits = append(limits, filepath.Base(m))
+		}
+		sort.Strings(limits)
+	}
+	cov["known_false_alarms"] = map[string]any{
+		"stored_under": "refactors/limits/ (README.md names the rule and the unrecognised form of each)",
+		"all":          limits,
+		"note":         "each is a behaviour- or property-preserving change on which at least one check alarms; the tree is right and the check is wrong there. They are excluded from the self-tests and are not known findings.",
+	}
 	ev := map[string]any{
 		"property_id": p.ID,
 		"tier":        a.Tier,
@@ -891,7 +905,8 @@ func (a *A) finish(p *Prop, verifDir string, seed int64, start time.Time, extraI
 		"assumptions": append([]string{
 			"go/types and go/ssa (x/tools) faithfully represent the compiled program; build tags: default set",
 			"verdicts concern the named structural clauses only, not the behaviour as a whole",
-			"functions that are not in sa/inventory.txt are inlined at their same-package call sites before the analysis (x/tools inliner + literal flattening, re-type-checked at every step): the normalised program is assumed to behave like the one on disk; what was inlined is listed under coverage.helper_normalisation",
+			"functions that are not in sa/inventory.txt are inlined at their same-package call sites before the analysis (x/tools inliner + literal flattening, re-type-checked at every step): the normalised program is assumed to behave like the one on disk; what was inlined is listed under coverage.helper_normalisation. Two cases in which it did not (an inliner binding that shadowed a caller variable, a range variable moved into a closure) were found by the false-alarm rounds and are guarded now (DESIGN 9.13, 9.14); on the unchanged tree nothing is inlined",
+			"the rules read the shape of one implementation: a re-expression of an algorithm (see coverage.known_false_alarms) can make a check alarm although the property holds",
 		}, p.Assumptions...),
 		"wall_s":     time.Since(start).Seconds(),
 		"violations": viol,
